@@ -17,12 +17,10 @@ import tornado.options as to
 
 from harness._misc1_dt import shim_str
 
-# spellings for booleans: the documented/canonical ones must give their value, the customary
-# alternatives may either give their customary value or be rejected, anything else must be rejected
+# spellings for booleans: true/1/t and false/0/f (any case) give their value, anything else - including the
+# customary yes/no/on/off, which Tornado does not accept - must be rejected with an error
 TRUE_WORDS = ("true", "1", "t")
 FALSE_WORDS = ("false", "0", "f")
-ALT_TRUE = ("yes", "y", "on")
-ALT_FALSE = ("no", "n", "off")
 BOOL_POOL = ("true", "True", "TRUE", "tRuE", "1", "t", "T", "false", "False", "FALSE", "0", "f", "F",
              "yes", "Yes", "y", "on", "ON", "no", "No", "n", "off", "OFF",
              "banana", "2", "", "tru", "falsee", "-1", "none", "null", " true", "01")
@@ -51,16 +49,12 @@ def _defaults_except(p, *names):
 
 
 def _bool_expect(text):
-    """-> (must_be, may_be): must_be in (True, False, None=must raise); may_be: value allowed besides raising."""
+    """-> (must_be, None): must_be in (True, False, None = must raise)."""
     low = text.lower()
     if low in TRUE_WORDS:
         return True, None
     if low in FALSE_WORDS:
         return False, None
-    if low in ALT_TRUE:
-        return None, True
-    if low in ALT_FALSE:
-        return None, False
     return None, None
 
 
@@ -70,9 +64,6 @@ def _check_bool(text, raised, got):
         reached("bool_canonical")
         assert raised is None and got is must, \
             "bool option given %r: expected %r, got %r (raised %r)" % (text, must, got, raised)
-    elif may is not None:
-        assert raised is not None or got is may, \
-            "bool option given %r: customary meaning is %r (or reject), got %r" % (text, may, got)
     else:
         reached("bool_garbage")
         assert raised is not None, \
@@ -298,15 +289,19 @@ def pre_cfg(kind: int, form: int, v: int, hi: int, s: str, b: bool) -> bool:
         return False
     if kind == 2 and form == 1 and not (0 <= v < len(BOOL_POOL)):
         return False
-    uses_s = (kind == 1 and form in (0, 3)) or (kind == 2 and form == 2) or (kind == 3 and form == 3) or kind == 4
+    uses_s = (kind == 1 and form in (0, 3)) or (kind == 3 and form == 3) or kind == 4
     if not uses_s and len(s) != 0:
         return False
-    if kind == 2 and form == 2 and len(s) > 1:
-        return False
-    if b and not ((kind == 1 and form == 2) or (kind == 2 and form == 0)):
+    if kind == 2 and form == 2 and not (0 <= v < 64):
+        return False                      # 1 or 2 letters of BOOLA: v % 8, v // 8 (two letters when b)
+    if b and not ((kind == 1 and form == 2) or (kind == 2 and form in (0, 2))):
         return False
     if hi != v and kind != 3:
         return False
+    if ((kind == 0 and form == 1) or (kind == 3 and form == 1)) and v < (-P.S if kind == 0 else 0):
+        return False                      # text forms: int() realises signed text (see h_cli)
+    if kind == 4 and form % 2 == 1 and not (0 <= v < 8 and len(s) == 0):
+        return False                      # unknown name "x" + ALPHA[v]: dict lookup realises names
     return in_shard(kind * 4 + form)
 
 
@@ -314,15 +309,19 @@ def classify_cfg(kind, form, v, hi, s, b):
     if kind == 2 and form == 1:
         return classify_bool_text(BOOL_POOL[v])
     if kind == 2 and form == 2:
-        return classify_bool_text(s)
+        return classify_bool_text(_cfg_bool_word(v, b))
     return None
+
+
+def _cfg_bool_word(v, b):
+    return BOOLA[v % 8] + BOOLA[(v // 8) % 8] if b else BOOLA[v % 8]
 
 
 @harness(
     pre=pre_cfg,
-    quick=dict(V=10 ** 4, L=3, timeout=60, per_path_timeout=30),
-    thorough=dict(V=10 ** 6, L=5, timeout=600, per_path_timeout=60),
-    nshards=dict(quick=10, thorough=20),
+    quick=dict(V=10 ** 4, S=12, L=3, timeout=60, per_path_timeout=30),
+    thorough=dict(V=10 ** 6, S=40, L=5, timeout=600, per_path_timeout=60),
+    nshards=dict(quick=20, thorough=20),
     reach=["cfg_typed_ok", "cfg_string_parsed", "cfg_wrong_type_rejected", "cfg_list_ok", "bool_garbage"],
     units=["options.OptionParser.parse_config_file", "options._Option.set", "options._Option.parse",
            "options._Option._parse_bool"],
@@ -345,7 +344,7 @@ def h_cfg(kind: int, form: int, v: int, hi: int, s: str, b: bool):
         if form == 0:
             ns, want = {"num": v}, v
         elif form == 1:
-            ns, want = {"num": str(v)}, v                    # strings are parsed as on the command line
+            ns, want = {"num": _digits(v)}, v                # strings are parsed as on the command line
             reached("cfg_string_parsed")
         elif form == 2:
             ns, expect_error = {"num": 1.5}, True
@@ -369,7 +368,7 @@ def h_cfg(kind: int, form: int, v: int, hi: int, s: str, b: bool):
             text = BOOL_POOL[v]
             ns = {"flag": text}
         elif form == 2:
-            text = s
+            text = _cfg_bool_word(v, b)
             ns = {"flag": text}
         else:
             if v == 0 or v == 1:
@@ -381,7 +380,7 @@ def h_cfg(kind: int, form: int, v: int, hi: int, s: str, b: bool):
             ns, want = {"nums": [v, hi]}, [v, hi]
             reached("cfg_list_ok")
         elif form == 1:
-            ns, want = {"nums": str(v) + ":" + str(hi) + "," + str(v)}, list(range(v, hi + 1)) + [v]
+            ns, want = {"nums": _digits(v) + ":" + _digits(hi) + "," + _digits(v)}, list(range(v, hi + 1)) + [v]
         elif form == 2:
             ns, expect_error = {"nums": v}, True             # neither list nor string
         else:
@@ -390,7 +389,7 @@ def h_cfg(kind: int, form: int, v: int, hi: int, s: str, b: bool):
         if form % 2 == 0:
             ns, name, want = {"under_score": v, "unrelated": s}, "under_score", v
         else:
-            ns, name, want = {"__file__": "x", "x" + s: v}, None, None
+            ns, name, want = {"__file__": "x", "x" + ALPHA[v]: v, "Num": 3, "nu": "m"}, None, None
     raised = None
     try:
         _run_config(p, ns)
